@@ -314,7 +314,7 @@ PROPS = {
     "C10": dict(
         modules=["actor_lifecycle"],
         contracts=[f"{ACTM}:Actor._run_loop", f"{ACTM}:Actor._delay_if_restart", f"{ACTM}:Actor.start", f"{BGSM}:BackgroundService.cancel",
-                   f"{BGSM}:BackgroundService.stop", "frequenz.sdk.actor._run_utils:run"],
+                   f"{BGSM}:BackgroundService.stop", f"{BGSM}:BackgroundService.wait", "frequenz.sdk.actor._run_utils:run"],
         lemmas=[],
         bounded=[dict(kind="native_script", name="restart policy on the real Actor (scripted outcomes, restart limits, second start, "
                                                  "restart delay of a subclass)", module="native.explore_actor"),
